@@ -191,10 +191,16 @@ let () =
   iter_lines (fun line ->
       match split_tab line with
       | [id; "probe"; obs] ->
-        (* the streamBytes quirk as the tree exhibits it now *)
-        (match obs with
-         | "empty" -> cfg := cfg_pinned; Printf.printf "%s\t%s\tok\n" id obs
-         | "full" -> cfg := cfg_repaired; Printf.printf "%s\t%s\tok\n" id obs
+        (* the quirks as the tree exhibits them now select the model configuration; anything else
+           than the two known behaviours of each quirk is reported as a disagreement *)
+        let kv = List.filter_map (fun s -> match String.index_opt s '=' with
+            | Some i -> Some (String.sub s 0 i, String.sub s (i + 1) (String.length s - i - 1)) | None -> None)
+            (String.split_on_char ';' obs) in
+        let get k = try List.assoc k kv with Not_found -> "?" in
+        (match get "stream", get "mapcopy" with
+         | ("empty" | "full" as st), ("ok" | "panic" as mc) ->
+           cfg := cfg_of (st = "empty") (mc = "ok");
+           Printf.printf "%s\t%s\tok\n" id obs
          | _ -> Printf.printf "%s\t?\tok\n" id)
       | [id; script; obs] ->
         (try
